@@ -5,6 +5,7 @@
   `Ty.hasTD t`: some TypedDict node occurs in `t`.
 -/
 import MTVerif.Lemmas.TdSize
+import MTVerif.Lemmas.Enforce
 namespace MT.C06
 open MT
 
@@ -54,6 +55,33 @@ theorem typed_dict_keys_are_strings (k : Nat) (v : Val) (h : (getType k v).isTD 
   obtain ⟨kvs, hv, _, hk, _⟩ := (typed_dict_iff k v).mp h
   exact ⟨kvs, hv, all_tdKeyOk_strKey kvs hk⟩
 
+/-! ### at stub time: the limit in force now, whatever the traces were recorded under -/
+
+/-- C06 for the stub: `shrink_traced_types` rewrites every stored type with `RewriteOversizeTypedDictToDict(k)` (`enforce k`)
+    before merging.  Whatever size limits the stored types were recorded under (each is `tdOk k0` for some `k0`: a type some
+    `get_type` / `shrink_types` built), the merged type has only TypedDicts with between 1 and `k` keys, at every depth. -/
+theorem stub_limit_enforced (k : Nat) (ts : List Ty) (h : ∀ t ∈ ts, ∃ k0, t.tdOk k0 = true) :
+    (shrink k (ts.map (enforce k))).tdOk k = true := by
+  apply shrink_tdOk
+  intro t ht
+  obtain ⟨u, hu, rfl⟩ := List.mem_map.mp ht
+  obtain ⟨k0, hk0⟩ := h u hu
+  exact enforce_tdOk k k0 u hk0
+
+/-- … in particular no TypedDict at all in a stub generated at the default limit 0, even from traces recorded with TypedDicts -/
+theorem stub_limit_zero_no_typed_dict (ts : List Ty) (h : ∀ t ∈ ts, ∃ k0, t.tdOk k0 = true) :
+    (shrink 0 (ts.map (enforce 0))).hasTD = false :=
+  tdOk_zero _ (stub_limit_enforced 0 ts h)
+
+/-- the stub-time rewrite changes nothing on types recorded under the same limit (in the normal form inference builds) -/
+theorem enforce_identity_at_own_limit (k : Nat) (ts : List Ty) (h : ∀ t ∈ ts, t.tdOk k = true ∧ t.normal = true) :
+    ts.map (enforce k) = ts := map_enforce_id k ts h
+
+/-- … and it never narrows: a member of the stored type is a member of the rewritten one (both readings of `Any`) -/
+theorem enforce_never_narrows (sub : ClassId → ClassId → Bool) (ao : Bool) (hrefl : ∀ c, sub c c = true) (k : Nat) (t : Ty) (v : Val)
+    (hw : t.wf = true) (h : conforms sub ao t v = true) : conforms sub ao (enforce k t) v = true :=
+  enforce_widens sub ao hrefl k t v hw h
+
 /-- when shapes are mixed every TypedDict is rewritten to Dict, at every depth the generic rewriter reaches -/
 theorem mixed_shapes_no_typed_dict (t : Ty) : (tdToDict t).hasTD = false := tdToDict_noTD t
 
@@ -64,5 +92,9 @@ theorem bound_zero_iff_absent (t : Ty) (h : t.tdOk 0 = true) : t.hasTD = false :
 example : (Ty.td [("a", .cls intC)] [("b", .list (.td [("c", .any)] []))]).tdOk 2 = true := by decide
 example : (Ty.td [("a", .cls intC)] [("b", .list (.td [("c", .any)] []))]).tdOk 1 = false := by decide
 example : (Ty.list (.td [("c", .any)] [])).hasTD = true := by decide
+/-- a list of three-key TypedDicts recorded under limit 5, stubbed at limit 2 and at limit 0 -/
+example : Ty.beq' (shrink 2 ([Ty.list (.td [("a", .cls intC), ("b", .cls strC), ("c", .cls intC)] [])].map (enforce 2)))
+    (.list (.dict (.cls strC) (.union [.cls intC, .cls strC]))) = true := by decide +kernel
+example : (Ty.list (.td [("a", .cls intC), ("b", .cls strC), ("c", .cls intC)] [])).tdOk 5 = true := by decide
 
 end MT.C06
